@@ -26,6 +26,12 @@ pub enum StoreFault {
     Random { seed: u64, len: usize, marker: bool },
     /// first `a` bytes of this stream followed by the bytes of corpus item `other` from offset `b`
     Splice { a: usize, other: usize, b: usize },
+    /// a lost sector: `len` bytes from `at` read back as zeros (never-panics half only)
+    ZeroRange { at: usize, len: usize },
+    /// a lost write: `len` bytes from `at` are missing (never-panics half only)
+    Delete { at: usize, len: usize },
+    /// a duplicated write: `len` bytes from `at` appear twice (never-panics half only)
+    Duplicate { at: usize, len: usize },
 }
 
 #[derive(Serialize, Deserialize, Clone, Debug)]
@@ -66,6 +72,23 @@ pub fn apply(bytes: &[u8], f: &StoreFault, other: Option<&[u8]>) -> Vec<u8> {
             if let Some(o) = other {
                 b.extend_from_slice(&o[(*off).min(o.len())..]);
             }
+        }
+        StoreFault::ZeroRange { at, len } => {
+            let end = (*at + *len).min(b.len());
+            for x in &mut b[(*at).min(end)..end] {
+                *x = 0;
+            }
+        }
+        StoreFault::Delete { at, len } => {
+            let end = (*at + *len).min(b.len());
+            b.drain((*at).min(end)..end);
+        }
+        StoreFault::Duplicate { at, len } => {
+            let end = (*at + *len).min(b.len());
+            let dup: Vec<u8> = b[(*at).min(end)..end].to_vec();
+            let tail = b.split_off(end);
+            b.extend_from_slice(&dup);
+            b.extend_from_slice(&tail);
         }
     }
     b
@@ -191,6 +214,14 @@ fn faults_for(item: &CorpusItem, idx: usize, tier_thorough: bool) -> Vec<StoreFa
     for len in 0..item.bytes.len() {
         v.push(StoreFault::Truncate { len });
     }
+    // lost, zeroed and duplicated byte ranges at every byte position (torn / lost / repeated writes)
+    for at in 0..item.bytes.len() {
+        for len in [1usize, 2, 4, 16] {
+            v.push(StoreFault::ZeroRange { at, len });
+            v.push(StoreFault::Delete { at, len });
+            v.push(StoreFault::Duplicate { at, len });
+        }
+    }
     if tier_thorough {
         // every burst: start bit x mask whose first bit is set (width 2..=8)
         for bit in 0..nbits {
@@ -214,7 +245,7 @@ fn faults_for(item: &CorpusItem, idx: usize, tier_thorough: bool) -> Vec<StoreFa
 
 pub fn run(ctx: &crate::RunCtx) -> (Summary, Vec<Violation>) {
     let mut sum = Summary::new(
-        "corpus item = small emitted stream; faults on the stored bytes before parser::stream: EVERY single-bit flip, EVERY truncation length, \
+        "corpus item = small emitted stream; faults on the stored bytes before parser::stream: EVERY single-bit flip, EVERY truncation length, zeroed / deleted / duplicated ranges of 1, 2, 4, 16 bytes at EVERY byte position (never-panics half), \
          bursts (quick: every multi-bit mask at every byte position for a third of the corpus; thorough: every start bit x every mask of width 2..8 with first and last bit set), \
          plus seeded random byte strings and splices. A case = (stream, fault); all enumerated cases are distinct; non-trivial = the altered bytes got past the \
          marker and STREAMINFO into the frame parser (fault at or after the first frame byte, or a random/spliced file that keeps a valid header).",
@@ -229,7 +260,9 @@ pub fn run(ctx: &crate::RunCtx) -> (Summary, Vec<Violation>) {
             corpus::kinds(item, &mut sum.probes);
         }
         let Some(base) = baseline(item) else {
-            *sum.probes.entry("baseline_rejected".into()).or_default() += 1;
+            if ctx.child == 0 {
+                *sum.probes.entry("baseline_rejected".into()).or_default() += 1;
+            }
             if std::env::var("VERIF_DEBUG").is_ok() {
                 eprintln!("baseline rejected: item {} {:?}", item.idx, item.spec);
             }
@@ -237,7 +270,9 @@ pub fn run(ctx: &crate::RunCtx) -> (Summary, Vec<Violation>) {
         };
         if base.audio != item.audio {
             // C15's business; the corrupted-stream oracle compares against what the parser decodes from the clean file
-            *sum.probes.entry("baseline_decodes_differently_from_input".into()).or_default() += 1;
+            if ctx.child == 0 {
+                *sum.probes.entry("baseline_decodes_differently_from_input".into()).or_default() += 1;
+            }
         }
         for fault in faults_for(item, item.idx, thorough) {
             n_case += 1;
@@ -252,6 +287,9 @@ pub fn run(ctx: &crate::RunCtx) -> (Summary, Vec<Violation>) {
                 StoreFault::Truncate { .. } => "truncate",
                 StoreFault::Random { .. } => "random_bytes",
                 StoreFault::Splice { .. } => "splice",
+                StoreFault::ZeroRange { .. } => "zero_range",
+                StoreFault::Delete { .. } => "delete_range",
+                StoreFault::Duplicate { .. } => "duplicate_range",
             };
             *sum.fault_kinds.entry(kind.into()).or_default() += 1;
             if span(&fault).map_or(false, |(f, _)| f >= base.frame_start_bit) {
